@@ -287,6 +287,8 @@ def run_property(ctx, pid, targets, rule, assumptions):
         # a broken tie widens the search once
         unknown = [m for m in mine if vlib.match_known(ctx.known, {"key": m["key"]}) is None]
         if (corr or ctx.broken) and not unknown and t == "quick" and not runs and seed == ctx.seed:
+            # (300 random scenarios instead of the thorough tier's 1200: the widened search has to fit in a quick check)
+            os.environ["CP_NRAND"] = os.environ.get("CP_NRAND_WIDEN", "300")
             runs.append(("thorough", ctx.seed + 1))
     if total:
         cov["evaluations"] = total.get("cases", 0)
